@@ -48,6 +48,9 @@ struct SeqStats {
     reopened: u64,
     cap_frontier: bool,
     upto_accrual: bool,
+    close_bank_ok: u64,
+    close_bank_ok_after_activity: u64,
+    max_share_value: f64,
 }
 
 struct Monitors {
@@ -146,6 +149,11 @@ fn run_case(target: Target, spec: &WorldSpec, ops: &[Op], stats: &mut SeqStats, 
                 stats.cap_frontier = true;
             }
         }
+        stats.close_bank_ok = m.c02.close_bank_accepted;
+        stats.close_bank_ok_after_activity = m.c02.close_bank_accepted_after_activity;
+        for b in post.banks.values() {
+            stats.max_share_value = stats.max_share_value.max(crate::num::q_f64(&b.asv)).max(crate::num::q_f64(&b.lsv));
+        }
         stats.max_positions = stats.max_positions.max(m.c16.max_positions);
         stats.opened_by_tag = m.c16.opened_by_tag.clone();
         stats.max_integration = m.c16.max_integration_positions;
@@ -208,6 +216,12 @@ pub fn run_target(ctx: &Ctx, target: Target) -> Report {
                     rep.label_n(&format!("position-opened:tag{t}"), *n);
                 }
                 rep.set_max("max_integration_positions_in_one_account", stats.max_integration as f64);
+                rep.set_max("max_share_value_reached", stats.max_share_value);
+                rep.add_extra("close_bank_accepted", stats.close_bank_ok);
+                rep.add_extra("close_bank_accepted_after_activity", stats.close_bank_ok_after_activity);
+                if stats.max_share_value >= 1.0e4 {
+                    rep.label("share-value>=1e4");
+                }
                 for n in &notes {
                     rep.label(&format!("note:{n}"));
                 }
